@@ -91,5 +91,11 @@ check("C17", "other",
       "constraint table -> guarded-diagnostic search over typed AST (condition predicate + ErrLogger call in the responsible function); provenance rule for diagnostic positions (receiver/parameter/token, never a looked-up node)",
       "DESIGN.md 3/C17")
 
-for pid in ["C14","C15"]:
+check("C14", "other",
+      "Decides whether each checked-in generated file is an instance of the CURRENT templates and whether the three files of each directory agree with each other and with the grammar next to them: each of the 12 files is matched (whitespace-insensitively, every literal segment of code and comments in order, holes constrained by category, the feature switch decided by the package's own parser type) against a matcher derived from the template text; the constant tables are decoded and every index, the _act case set, the token constants (dense, EOF=0, ERROR=1, one per grammar token), mode count, sorted disjoint ranges and the row order the current writer uses are checked; every grammar directory holds the three files and type-checks.",
+      "Not decided: byte-for-byte regeneration itself, i.e. that the NUMBERS in the tables are those the current automaton construction would produce. A change to LALR/DFA construction or table-building code that is not followed by regeneration is invisible to this check (seeded change C14-B shows it).",
+      "matcher (RE2 regular expression) compiled from the parsed Jet template and applied to the checked-in sources; decoding of table constants from the AST; grammar-source cross-checks",
+      "DESIGN.md 3/C14")
+
+for pid in ["C15"]:
     na(pid, "check under construction in this session; see DESIGN.md section 3 for the planned rules")
